@@ -85,6 +85,7 @@ enum Res {
 struct Frame {
     end: u64,
     flag: Option<u64>,
+    #[allow(dead_code)]
     data: usize,
     garbage: bool,
 }
